@@ -81,3 +81,39 @@ def shape_cases(ctx, compressed_too=True):
                 ctx.add('shape_unsupported', '%s:%s' % (name, e))
                 continue
             yield name, msg
+
+
+_vs_cache = {}
+
+
+def version_sensitive_pairs(min_version=6):
+    """[(element id, vA, vB)]: the element's (scale, reference, width) differ between the two bundled
+    master-table versions (consecutive versions and first/last), so the same descriptor list means
+    different bits under vA and vB."""
+    key = min_version
+    if key in _vs_cache:
+        return _vs_cache[key]
+    vs = [v for v in R.wmo_versions() if v >= min_version]
+    combos = list(zip(vs, vs[1:])) + [(vs[0], vs[-1])]
+    out = []
+    for a, b in combos:
+        Ba, _ = R.load_tables(0, 0, 0, a, 0)
+        Bb, _ = R.load_tables(0, 0, 0, b, 0)
+        for e in sorted(Ba):
+            if e in Bb and Ba[e][2:5] != Bb[e][2:5] and e // 1000 not in (0, 31, 33) and \
+                    R.kind_of(Ba[e][1]) == R.kind_of(Bb[e][1]) and max(Ba[e][4], Bb[e][4]) <= 32:
+                out.append((e, a, b))
+    _vs_cache[key] = out
+    return out
+
+
+def version_pair_messages(rng, pair, compressed=False):
+    """two messages with identical descriptor lists under the two versions of `pair`."""
+    e, a, b = pair
+    ids = [1001, e, 12001, e]
+    out = []
+    for v in (a, b):
+        B, D = tables(v)
+        out.append(R.build_message(ids, B, D, R.Policy(rng), 2 if compressed else 1, compressed, 4,
+                                   dict(master_table_version=v)))
+    return ids, out
